@@ -395,4 +395,403 @@ theorem good_stepCons {c c' : Cfg} {tid : Tid} {t : Th} {alt : Bool} {lbl : Stri
     · unfold TI at hti ⊢; simpa [hr, hcpc] using hti
     · simp [HoldsI, hr]
 
+/-! ### first-level tasks -/
+
+theorem v1_l1 {t : Th} (hr : t.role = .l1) : v1 t = t.a := by simp [v1, hr]
+theorem v2_l1 {t : Th} (hr : t.role = .l1) : v2 t = inertT := by simp [v2, hr]
+
+/-- a plain `Q1` step of a first-level task -/
+theorem good_l1_deleg {c : Cfg} {tid : Tid} {t t' : Th} {alt : Bool} {l : String} {s1' : Shared} {a' : Queue.Thread}
+    (hg : Good c) (ht : c.ths[tid]? = some t) (hr : t.role = .l1)
+    (hst : stepThread c.s1 t.a tid alt = some (l, s1', a')) (hr' : t'.role = t.role) (ha' : t'.a = a') :
+    Good { c with s1 := s1', ths := c.ths.set tid t' } := by
+  have hi := hg.inv
+  have hq1 := q1_get ht
+  have hq2 := q2_get ht
+  rw [v1_l1 hr] at hq1
+  rw [v2_l1 hr] at hq2
+  have hti := hi.ti t (List.mem_of_getElem? ht)
+  unfold TI at hti
+  simp only [hr] at hti
+  have htok : TOK t.a := hg.live1.base.tok t.a (List.mem_of_getElem? hq1)
+  obtain ⟨k1, -, k3⟩ := stepThread_const l s1' a' hst
+  obtain ⟨-, hprog', -⟩ := stepThread_data l s1' a' hst htok
+  have hr1 : t'.role = .l1 := by rw [hr', hr]
+  refine good_mk2 hg ht hr' ?_ (.keep ?_) (v1_l1 hr1) (v2_l1 hr1)
+    (by rw [ha']; exact live_deleg (qc := q1cfg c) hg.live1 hi.to1 hq1 hst (sameFields_refl _))
+    (live_keep hg.live2 hq2) ⟨by rw [k1]; exact hi.to1, by rw [k3]; exact hi.ig1⟩ ⟨hi.to2, hi.ig2⟩
+  · unfold TI; simp only [hr1]; rw [ha', hprog']; exact hti
+  · simp [HoldsI, hr1, hr]
+
+set_option maxHeartbeats 400000 in
+theorem good_stepL1 {c c' : Cfg} {tid : Tid} {t : Th} {alt : Bool} {lbl : String} (hg : Good c)
+    (ht : c.ths[tid]? = some t) (hr : t.role = .l1) (h : stepL1 c tid t alt = some (lbl, c')) : Good c' := by
+  have hi := hg.inv
+  unfold stepL1 at h
+  split at h
+  · -- start
+    (repeat' split at h) <;> simp only [Option.some.injEq, Prod.mk.injEq, reduceCtorEq] at h
+    rename_i l s1' a' hst
+    obtain ⟨-, rfl⟩ := h
+    exact good_l1_deleg (t' := { t with a := a' }) hg ht hr hst rfl rfl
+  · -- eNext
+    rename_i hpc
+    split at h
+    · simp at h
+    · split at h
+      · simp only [Option.some.injEq, Prod.mk.injEq] at h
+        obtain ⟨-, rfl⟩ := h
+        have hq1 := q1_get ht
+        have hq2 := q2_get ht
+        rw [v1_l1 hr] at hq1
+        rw [v2_l1 hr] at hq2
+        have hti := hi.ti t (List.mem_of_getElem? ht)
+        unfold TI at hti
+        simp only [hr] at hti
+        refine good_mk2 (t' := { t with a := { t.a with pc := .tAcq, rets := retOf t.a :: t.more, reraise := none } })
+          hg ht rfl ?_ (.keep ?_) (v1_l1 hr) (v2_l1 hr) ?_ (live_keep hg.live2 hq2) ⟨hi.to1, hi.ig1⟩ ⟨hi.to2, hi.ig2⟩
+        · unfold TI; simp only [hr]; exact hti
+        · simp [HoldsI, hr]
+        · exact live_enext_stop (c := q1cfg c) hg.live1 hi.to1 hq1 hpc ⟨rfl, rfl, rfl, rfl, rfl, rfl⟩
+      · split at h
+        · simp at h
+        · rename_i l s1' a' hst
+          simp only [Option.some.injEq, Prod.mk.injEq] at h
+          obtain ⟨-, rfl⟩ := h
+          exact good_l1_deleg hg ht hr hst rfl rfl
+  · split at h
+    · simp at h
+    · rename_i l s1' a' hst
+      simp only [Option.some.injEq, Prod.mk.injEq] at h
+      obtain ⟨-, rfl⟩ := h
+      exact good_l1_deleg hg ht hr hst rfl rfl
+
+/-! ### second-level tasks -/
+
+theorem v2_l2 {t : Th} (hr : t.role = .l2) : v2 t = t.b := by simp [v2, hr]
+theorem v1_l2_off {t : Th} (hr : t.role = .l2) (h1 : t.x ≠ .deq) (h2 : t.x ≠ .up) : v1 t = inertT := by
+  simp [v1, hr, h1, h2]
+theorem v1_l2_on {t : Th} (hr : t.role = .l2) (h : t.x = .deq ∨ t.x = .up) : v1 t = t.a := by
+  simp [v1, hr, h]
+
+/-- outside `next(iterator)` and before its end, a second-level task is inside the `Q2` API -/
+theorem l2_x_idle {t : Th} (hr : t.role = .l2) (hti : TI t) (h1 : t.b.pc ≠ .eNext) (h2 : t.b.pc ≠ .done) :
+    t.x = .idle ∧ t.a.result = [] := by
+  unfold TI at hti
+  simp only [hr] at hti
+  obtain ⟨-, hx⟩ := hti
+  cases hxx : t.x <;> simp only [hxx] at hx
+  · exact ⟨rfl, hx.2⟩
+  · exact absurd hx.1 h1
+  · exact absurd hx.1 h1
+  · exact absurd hx.1 h1
+  · exact absurd hx.1 h2
+
+theorem batchEnd_none {pc : Pc} {res : List Elem} {a' : Queue.Thread} {cache : List Elem}
+    (h : batchEnd pc res a' cache = none) : pc ≠ .bE3 ∧ pc ≠ .bRaise := by
+  unfold batchEnd at h
+  (repeat' split at h) <;> simp_all
+
+theorem batchEnd_some {pc : Pc} {res : List Elem} {a' : Queue.Thread} {cache : List Elem} {x : Hand × List Elem}
+    (h : batchEnd pc res a' cache = some x) : pc = .bE3 ∨ pc = .bRaise := by
+  unfold batchEnd at h
+  (repeat' split at h) <;> simp_all
+
+/-- what `afterPull` leaves: the `Q2` view, the constants, the thread's phase -/
+theorem afterPull_good {c : Cfg} {tid : Tid} {t : Th} (hg : Good c) (ht : c.ths[tid]? = some t) (hr : t.role = .l2)
+    (hpc : t.b.pc = .eNext) (hres : t.a.result = []) (hkb : t.b.prog.kind = .producer) (r : Hand) :
+    Queue.Live { sh := (afterPull F c.fwd tid c.s2 t r).1,
+                 ths := (q2cfg c).ths.set tid (afterPull F c.fwd tid c.s2 t r).2.b } ∧
+    ((afterPull F c.fwd tid c.s2 t r).1.timeout = false ∧ (afterPull F c.fwd tid c.s2 t r).1.ignoreError = false) ∧
+    TI (afterPull F c.fwd tid c.s2 t r).2 ∧
+    ((afterPull F c.fwd tid c.s2 t r).2.x = .idle ∨ (afterPull F c.fwd tid c.s2 t r).2.x = .lockAcq) := by
+  have hi := hg.inv
+  have hq := q2_get ht
+  rw [v2_l2 hr] at hq
+  have hfail : ∀ (e : ErrKind) (t1 : Th), t1.b = t.b → t1.role = t.role → t1.a = t.a →
+      Queue.Live { sh := (failPull e c.s2 t1).1, ths := (q2cfg c).ths.set tid (failPull e c.s2 t1).2.b } ∧
+      ((failPull e c.s2 t1).1.timeout = false ∧ (failPull e c.s2 t1).1.ignoreError = false) ∧
+      TI (failPull e c.s2 t1).2 ∧ ((failPull e c.s2 t1).2.x = .idle ∨ (failPull e c.s2 t1).2.x = .lockAcq) := by
+    intro e t1 h1 h2 h3
+    refine ⟨?_, ⟨hi.to2, hi.ig2⟩, ?_, .inl rfl⟩
+    · unfold failPull
+      rw [h1]
+      exact live_fail_any (c := q2cfg c) e hg.live2 hi.to2 hi.ig2 hq hpc ⟨rfl, rfl, rfl, rfl, rfl, rfl⟩
+    · unfold TI failPull
+      simp [h1, h2, h3, hr, hkb, hres]
+  unfold afterPull
+  split
+  · refine ⟨?_, ⟨hi.to2, hi.ig2⟩, ?_, .inl rfl⟩
+    · exact live_enext_stop (c := q2cfg c) hg.live2 hi.to2 hq hpc
+        ⟨rfl, rfl, rfl, by simp [hi.gen], rfl, rfl⟩
+    · unfold TI; simp [hr, hkb, hres]
+  · exact hfail _ t rfl rfl rfl
+  · rename_i v
+    split
+    · exact hfail _ _ rfl rfl rfl
+    · refine ⟨?_, ⟨hi.to2, hi.ig2⟩, ?_, .inr rfl⟩
+      · exact live_fields (c := q2cfg c) hg.live2 hq ⟨rfl, rfl, rfl, rfl, rfl, rfl⟩
+      · unfold TI; simp [hr, hkb, hres, hpc]
+    · refine ⟨?_, ⟨hi.to2, hi.ig2⟩, ?_, .inl rfl⟩
+      · exact live_enext_val (c := q2cfg c) hg.live2 hi.to2 hq hpc ⟨rfl, rfl, rfl, rfl, rfl, rfl⟩
+      · unfold TI; simp [hr, hkb, hres]
+
+theorem postProd_spec (tid : Tid) (t : Th) (s2' : Shared) (b' : Queue.Thread) (hxi : t.x = .idle) :
+    (postProd tid t s2' b').role = t.role ∧
+    ((b'.pc = .eNext ∧ (postProd tid t s2' b').b = b' ∧ (postProd tid t s2' b').x = .lockAcq ∧
+        (postProd tid t s2' b').a = t.a) ∨
+     (b'.pc = .eNext ∧ (∃ y, (postProd tid t s2' b').b = { b' with pc := .pAcq, v := (tid, y) }) ∧
+        (postProd tid t s2' b').x = .idle ∧ (postProd tid t s2' b').a = t.a) ∨
+     (b'.pc = .done ∧ (postProd tid t s2' b').b = b' ∧ (postProd tid t s2' b').x = .up ∧
+        (postProd tid t s2' b').a = stopperAt t.a) ∨
+     (b'.pc ≠ .eNext ∧ (postProd tid t s2' b').b = b' ∧ (postProd tid t s2' b').x = .idle ∧
+        (postProd tid t s2' b').a = t.a)) := by
+  refine ⟨postProd_role _ _ _ _, ?_⟩
+  unfold postProd
+  simp only []
+  by_cases he : b'.pc = .eNext
+  · simp only [he, beq_self_eq_true, if_true]
+    unfold enterNext
+    cases hp : t.pend with
+    | nil => exact .inl ⟨trivial, rfl, rfl, rfl⟩
+    | cons y ys => exact .inr (.inl ⟨trivial, ⟨y, rfl⟩, hxi, rfl⟩)
+  · have he' : (b'.pc == Pc.eNext) = false := by simpa using he
+    simp only [he', Bool.false_eq_true, if_false]
+    split
+    · rename_i hd
+      simp only [Bool.and_eq_true, beq_iff_eq] at hd
+      exact .inr (.inr (.inl ⟨hd.1, rfl, rfl, rfl⟩))
+    · exact .inr (.inr (.inr ⟨he, rfl, hxi, rfl⟩))
+
+set_option maxHeartbeats 400000 in
+theorem good_stepL2 {c c' : Cfg} {tid : Tid} {t : Th} {alt : Bool} {lbl : String} (hg : Good c)
+    (ht : c.ths[tid]? = some t) (hr : t.role = .l2) (h : stepL2 F c tid t alt = some (lbl, c')) : Good c' := by
+  have hi := hg.inv
+  have hti := hi.ti t (List.mem_of_getElem? ht)
+  have hq1 := q1_get ht
+  have hq2 := q2_get ht
+  rw [v2_l2 hr] at hq2
+  have hc1 : c.s1.timeout = false ∧ c.s1.ignoreError = false := ⟨hi.to1, hi.ig1⟩
+  have hc2 : c.s2.timeout = false ∧ c.s2.ignoreError = false := ⟨hi.to2, hi.ig2⟩
+  have htid1 : tid < (q1cfg c).ths.length := (List.getElem?_eq_some_iff.mp hq1).1
+  have hkb : t.b.prog.kind = .producer := by unfold TI at hti; simp only [hr] at hti; exact hti.1
+  have hti' := hti
+  unfold TI at hti'
+  simp only [hr] at hti'
+  replace hti' := hti'.2
+  unfold stepL2 at h
+  split at h
+  · -- start
+    rename_i hpc
+    split at h
+    · simp at h
+    split at h <;> simp only [Option.some.injEq, Prod.mk.injEq, reduceCtorEq] at h
+    obtain ⟨-, rfl⟩ := h
+    obtain ⟨hxi, hres⟩ := l2_x_idle hr hti (by rw [hpc]; simp) (by rw [hpc]; simp)
+    rw [v1_l2_off hr (by simp [hxi]) (by simp [hxi])] at hq1
+    refine good_mk2 (t' := { t with b := { t.b with pc := .sAcq } }) hg ht rfl ?_ (.keep ?_)
+      (v1_l2_off hr (by simp [hxi]) (by simp [hxi])) (v2_l2 hr) (live_keep hg.live1 hq1) ?_ hc1 hc2
+    · unfold TI; simp [hr, hxi, hkb, hres]
+    · simp [HoldsI, hr, hxi]
+    · cases hprog : t.b.prog with
+      | producer src r =>
+        exact live_deleg (qc := q2cfg c) hg.live2 hi.to2 hq2 (stepThread_start_prod hpc hprog)
+          ⟨rfl, rfl, rfl, rfl, rfl, rfl⟩
+      | getLoop => rw [hprog] at hkb; cases hkb
+      | batchLoop _ _ => rw [hprog] at hkb; cases hkb
+      | stopper _ => rw [hprog] at hkb; cases hkb
+  · -- eNext
+    rename_i hpc
+    split at h
+    · -- lockAcq
+      rename_i hxx
+      simp only [hxx] at hti'
+      have hres : t.a.result = [] := hti'.2
+      rw [v1_l2_off hr (by simp [hxx]) (by simp [hxx])] at hq1
+      split at h
+      · simp at h
+      split at h
+      · simp at h
+      rename_i hil
+      split at h
+      · rename_i v rest hcache
+        simp only [Option.some.injEq, Prod.mk.injEq] at h
+        obtain ⟨-, rfl⟩ := h
+        refine good_mk2 (t' := { t with hand := .item v.2, x := .lockRel }) hg ht rfl ?_ (.acq hil ?_)
+          (v1_l2_off hr (by simp) (by simp)) (v2_l2 hr) (live_keep hg.live1 hq1) (live_keep hg.live2 hq2) hc1 hc2
+        · unfold TI; simp [hr, hkb, hpc, hres]
+        · simp [HoldsI, hr]
+      · simp only [Option.some.injEq, Prod.mk.injEq] at h
+        obtain ⟨-, rfl⟩ := h
+        refine good_mk2
+          (t' := { t with a := { t.a with pc := .bAcq, prog := .batchLoop c.bm1 false, result := [] }, x := .deq })
+          hg ht rfl ?_ (.acq hil ?_)
+          (w1 := { t.a with pc := .bAcq, prog := .batchLoop c.bm1 false, result := [] }) (by simp [v1, hr]) (v2_l2 hr)
+          ?_ (live_keep hg.live2 hq2) hc1 hc2
+        · unfold TI; simp [hr, hkb, hpc, show (Prog.batchLoop c.bm1 false).kind = PKind.batch from rfl]
+        · simp [HoldsI, hr]
+        · refine live_swap_off hg.live1 hq1 offQ_inert (offQ_of_pc (by simp [Prog.kind]) (by simp)) (fun h => ?_)
+            ⟨fun k hk => by simp [pcKind] at hk; rw [← hk]; rfl, fun hk => absurd rfl hk⟩ ?_ ?_
+          · rw [inert_class.2.2.2.2.2.2.2.2.2.2.2.2.2.2.1] at h; cases h
+          · simp [TL]
+          · simp [XOK, armed]
+    · -- deq
+      rename_i hxx
+      simp only [hxx] at hti'
+      obtain ⟨-, hka, hns, hnd⟩ := hti'
+      rw [v1_l2_on hr (.inl hxx)] at hq1
+      split at h
+      · simp at h
+      rename_i l s1' a' hst
+      have htok : TOK t.a := hg.live1.base.tok t.a (List.mem_of_getElem? hq1)
+      obtain ⟨k1, -, k3⟩ := stepThread_const l s1' a' hst
+      obtain ⟨htok', hprog', -⟩ := stepThread_data l s1' a' hst htok
+      have hkind := kind_of_tok htok hns hnd
+      rw [hka] at hkind
+      have hne : t.a.pc ≠ .eNext := by intro e; rw [e] at hkind; simp [pcKind] at hkind
+      obtain ⟨-, -, -, -, -, hA, hB, -, -⟩ := stepThread_arm l s1' a' hst hne
+      obtain ⟨hp1, hp2⟩ := stepThread_pc l s1' a' hst
+      have hka' : a'.prog.kind = .batch := by rw [hprog']; exact hka
+      have hc1' : s1'.timeout = false ∧ s1'.ignoreError = false :=
+        ⟨by rw [k1]; exact hi.to1, by rw [k3]; exact hi.ig1⟩
+      split at h
+      · rename_i hbe
+        simp only [Option.some.injEq, Prod.mk.injEq] at h
+        obtain ⟨-, rfl⟩ := h
+        obtain ⟨-, hnr⟩ := batchEnd_none hbe
+        refine good_mk2 (t' := { t with a := a' }) hg ht rfl ?_ (.keep ?_) (v1_l2_on hr (.inl hxx)) (v2_l2 hr)
+          (live_deleg (qc := q1cfg c) hg.live1 hi.to1 hq1 hst (sameFields_refl _)) (live_keep hg.live2 hq2) hc1' hc2
+        · unfold TI; simp [hr, hxx, hkb, hpc, hka', hp1, hp2 hkind hnr]
+        · simp [HoldsI, hr, hxx]
+      · rename_i hd cache' hbe
+        simp only [Option.some.injEq, Prod.mk.injEq] at h
+        obtain ⟨-, rfl⟩ := h
+        have hend : (a'.pc = .done ∨ a'.pc = .bAcq) ∧ a'.result = [] := by
+          rcases batchEnd_some hbe with e | e
+          · exact ⟨.inr (hB e).1, (hB e).2.2.1⟩
+          · exact ⟨.inl (hA e).1, (hA e).2.2.1⟩
+        refine good_mk2 (t' := { t with a := a', hand := hd, x := .lockRel }) hg ht rfl ?_ (.keep ?_)
+          (v1_l2_off hr (by simp) (by simp)) (v2_l2 hr)
+          (live_deleg_leave (qc := q1cfg c) hg.live1 hi.to1 hq1 hst (q1_others_nc hi ht ⟨hr, .inl hxx⟩)
+            (by rw [hka']; simp) hend.1)
+          (live_keep hg.live2 hq2) hc1' hc2
+        · unfold TI; simp [hr, hkb, hpc, hend.2]
+        · simp [HoldsI, hr, hxx]
+    · -- lockRel
+      rename_i hxx
+      simp only [hxx] at hti'
+      have hres : t.a.result = [] := hti'.2
+      rw [v1_l2_off hr (by simp [hxx]) (by simp [hxx])] at hq1
+      split at h
+      · simp at h
+      split at h
+      · simp at h
+      rename_i hil
+      simp only [Option.some.injEq, Prod.mk.injEq] at h
+      obtain ⟨-, rfl⟩ := h
+      have hil' : c.ilock = some tid := by simpa using hil
+      obtain ⟨g1, g2, g3, g4⟩ := afterPull_good (F := F) hg ht hr hpc hres hkb t.hand
+      have hrole := afterPull_role F c.fwd tid c.s2 t t.hand
+      have hr' : (afterPull F c.fwd tid c.s2 t t.hand).2.role = .l2 := by rw [hrole]; exact hr
+      refine good_mk2 hg ht hrole g3 (.rel hil' ?_)
+        (v1_l2_off hr' (by rcases g4 with e | e <;> simp [e]) (by rcases g4 with e | e <;> simp [e])) (v2_l2 hr')
+        (live_keep hg.live1 hq1) g1 hc1 g2
+      rintro ⟨-, e | e⟩ <;> rcases g4 with e' | e' <;> rw [e'] at e <;> cases e
+    · -- other x at eNext
+      simp at h
+  · -- done
+    rename_i hpc
+    split at h
+    · rename_i hxx
+      simp only [hxx] at hti'
+      obtain ⟨-, hka, hns, hnd⟩ := hti'
+      rw [v1_l2_on hr (.inr hxx)] at hq1
+      split at h
+      · simp at h
+      rename_i l s1' a' hst
+      simp only [Option.some.injEq, Prod.mk.injEq] at h
+      obtain ⟨-, rfl⟩ := h
+      have htok : TOK t.a := hg.live1.base.tok t.a (List.mem_of_getElem? hq1)
+      obtain ⟨k1, -, k3⟩ := stepThread_const l s1' a' hst
+      obtain ⟨htok', hprog', -⟩ := stepThread_data l s1' a' hst htok
+      obtain ⟨hp1, -⟩ := stepThread_pc l s1' a' hst
+      have hka' : a'.prog.kind = .stopper := by rw [hprog']; exact hka
+      have hres' : a'.result = [] := htok'.res (by rw [hka']; simp)
+      have hc1' : s1'.timeout = false ∧ s1'.ignoreError = false :=
+        ⟨by rw [k1]; exact hi.to1, by rw [k3]; exact hi.ig1⟩
+      have hd1 := live_deleg (qc := q1cfg c) hg.live1 hi.to1 hq1 hst (sameFields_refl _)
+      by_cases hd : a'.pc = .done
+      · refine good_mk2 (t' := { t with a := a', x := (if a'.pc == .done then XPc.idle else XPc.up) })
+          hg ht rfl ?_ (.keep ?_) (w1 := inertT) (by simp [v1, hr, hd]) (v2_l2 hr) ?_ (live_keep hg.live2 hq2) hc1' hc2
+        · unfold TI; simp [hr, hd, hkb, hpc, hres']
+        · simp [HoldsI, hr, hd, hxx]
+        · have := live_done_to_inert (tid := tid) (a := a') hd1
+            (by show ((q1cfg c).ths.set tid a')[tid]? = some a'; simp [htid1]) (by rw [hka']; simp) hd
+          simpa [List.set_set] using this
+      · refine good_mk2 (t' := { t with a := a', x := (if a'.pc == .done then XPc.idle else XPc.up) })
+          hg ht rfl ?_ (.keep ?_) (w1 := a') (by simp [v1, hr, hd]) (v2_l2 hr) hd1 (live_keep hg.live2 hq2) hc1' hc2
+        · unfold TI; simp [hr, hd, hkb, hpc, hka', hp1]
+        · simp [HoldsI, hr, hd, hxx]
+    · simp at h
+  · -- a step on the output queue
+    rename_i hn1 hn2 hn3
+    split at h
+    · simp at h
+    rename_i l s2' b' hst
+    simp only [Option.some.injEq, Prod.mk.injEq] at h
+    obtain ⟨-, rfl⟩ := h
+    obtain ⟨hxi, hres⟩ := l2_x_idle hr hti (fun e => hn2 e) (fun e => hn3 e)
+    rw [v1_l2_off hr (by simp [hxi]) (by simp [hxi])] at hq1
+    have htok : TOK t.b := hg.live2.base.tok t.b (List.mem_of_getElem? hq2)
+    obtain ⟨k1, -, k3⟩ := stepThread_const l s2' b' hst
+    obtain ⟨htok', hprog', -⟩ := stepThread_data l s2' b' hst htok
+    obtain ⟨hp1, -⟩ := stepThread_pc l s2' b' hst
+    have hkb' : b'.prog.kind = .producer := by rw [hprog']; exact hkb
+    have hc2' : s2'.timeout = false ∧ s2'.ignoreError = false :=
+      ⟨by rw [k1]; exact hi.to2, by rw [k3]; exact hi.ig2⟩
+    have h1 := live_deleg (qc := q2cfg c) hg.live2 hi.to2 hq2 hst (sameFields_refl _)
+    have htid2 : tid < (q2cfg c).ths.length := (List.getElem?_eq_some_iff.mp hq2).1
+    obtain ⟨hrole, hspec⟩ := postProd_spec tid t s2' b' hxi
+    have hr' : (postProd tid t s2' b').role = .l2 := by rw [hrole]; exact hr
+    rcases hspec with ⟨e1, e2, e3, e4⟩ | ⟨e1, ⟨y, e2⟩, e3, e4⟩ | ⟨e1, e2, e3, e4⟩ | ⟨e1, e2, e3, e4⟩
+    · refine good_mk2 hg ht hrole ?_ (.keep ?_) (v1_l2_off hr' (by simp [e3]) (by simp [e3])) (v2_l2 hr')
+        (live_keep hg.live1 hq1) (by rw [e2]; exact h1) hc1 hc2'
+      · unfold TI; simp [hr', e2, e3, e4, hkb', e1, hres]
+      · simp [HoldsI, hr, hr', e3, hxi]
+    · refine good_mk2 hg ht hrole ?_ (.keep ?_) (v1_l2_off hr' (by simp [e3]) (by simp [e3])) (v2_l2 hr')
+        (live_keep hg.live1 hq1) ?_ hc1 hc2'
+      · unfold TI; simp [hr', e2, e3, e4, hkb', hres]
+      · simp [HoldsI, hr, hr', e3, hxi]
+      · rw [e2]
+        have := live_enext_val (b := { b' with pc := .pAcq, v := (tid, y) }) h1 (by show s2'.timeout = false; exact hc2'.1)
+          (by show ((q2cfg c).ths.set tid b')[tid]? = some b'; simp [htid2]) e1 ⟨rfl, rfl, rfl, rfl, rfl, rfl⟩
+        simpa [List.set_set] using this
+    · refine good_mk2 hg ht hrole ?_ (.keep ?_) (w1 := stopperAt t.a) (by rw [v1_l2_on hr' (.inr e3), e4]) (v2_l2 hr')
+        (live_inert_to_stopper (qc := q1cfg c) hg.live1 hq1 hres) (by rw [e2]; exact h1) hc1 hc2'
+      · unfold TI
+        simp [hr', e2, e3, e4, hkb', e1, show (stopperAt t.a).prog.kind = PKind.stopper from rfl,
+          show (stopperAt t.a).pc = Pc.mAcq from rfl]
+      · simp [HoldsI, hr, hr', e3, hxi]
+    · refine good_mk2 hg ht hrole ?_ (.keep ?_) (v1_l2_off hr' (by simp [e3]) (by simp [e3])) (v2_l2 hr')
+        (live_keep hg.live1 hq1) (by rw [e2]; exact h1) hc1 hc2'
+      · unfold TI; simp [hr', e2, e3, e4, hkb', e1, hres]
+      · simp [HoldsI, hr, hr', e3, hxi]
+
+/-- **both queues' no-lost-wake-up invariants are inductive over the steps of the two-queue LTS** -/
+theorem good_step {c c' : Cfg} {tid : Tid} {alt : Bool} {lbl : String} (hg : Good c)
+    (h : step F c tid alt = some (lbl, c')) : Good c' := by
+  unfold step at h
+  split at h
+  · simp at h
+  · rename_i t ht
+    split at h
+    · rename_i hr; exact good_stepCons hg ht hr h
+    · rename_i hr; exact good_stepL1 hg ht hr h
+    · rename_i hr; exact good_stepL2 hg ht hr h
+
+theorem good_reachable {c0 c : Cfg} (h0 : Good c0) (h : Reachable F c0 c) : Good c := by
+  induction h with
+  | init => exact h0
+  | step _ hs ih => exact good_step ih hs
+
 end MlModel.Piter2
